@@ -152,3 +152,10 @@ PROPS.update({
                                            "yaml.v3, cobra/viper flag handling, zerolog and the process exit path are not modelled: exercised on the real binary only"],
             "assumptions": ["equivalence of the file and inline forms is judged on descriptors without ':' (an inline value is split at its first ':')"]},
 })
+
+PROPS.update({
+    "C20": {"streams": [{"name": "conc"}],
+            "rule": "conc stream: per case one finished pair of templates (random columns over every format and raw type, always a binary([]byte) column on both sides and a sub-row on the output side) shared by G = 2..16 goroutines started together; each goroutine runs its own program 40 times (400 in the thorough tier): 2-4 lines through a private importer and exporter, CreateRowEmpty, CreateRow of JSON text as string and []byte, of a map, of a slice and of a row, MarshalJSON, and a private Streamer over its lines; the harness binary is built with -race and GORACE=halt_on_error=1; every iteration's results are compared with a sequential run of the same program made before the goroutines start, the prototypes are compared before and after, and the results observed in the concurrent run are evaluated against the template model; a case is distinct by (templates, programs, G)",
+            "trusted_base": TB_TEMPLATE + ["Go's race detector (ThreadSanitizer runtime) and scheduler: absence of data races is evidenced on the schedules the runs expose, not proved", "hand model JL.model.Heap for the operation-level theorems"],
+            "assumptions": ["no builder call runs concurrently with the goroutines (the property's premise)"]},
+})
